@@ -4,6 +4,7 @@ package main
 
 import (
 	"encoding/json"
+	"os/exec"
 	"flag"
 	"fmt"
 	"os"
@@ -20,6 +21,76 @@ type PropConfig struct {
 	Trusted  []string `json:"trusted"`
 	// functions verified for safety obligations only (zero-annotation sweep), by key
 	Sweep []string `json:"sweep"`
+	// bounded stand-ins: exhaustive executions of the real code up to a stated bound (never counted as proved)
+	Bounded []BoundedCheck `json:"bounded"`
+}
+
+type BoundedCheck struct {
+	Name     string            `json:"name"`
+	PkgDir   string            `json:"pkgdir"`   // relative to the repo root
+	TestFile string            `json:"testfile"` // absolute path of the injected in-package test
+	Run      string            `json:"run"`
+	Tags     string            `json:"tags"`
+	Env      map[string]string `json:"env"`
+	Thorough map[string]string `json:"thorough_env"`
+	What     string            `json:"what"`
+}
+
+type boundedResult struct {
+	Name       string   `json:"name"`
+	What       string   `json:"what"`
+	Cases      int      `json:"cases"`
+	Mismatches []string `json:"mismatches"`
+	Summary    string   `json:"summary"`
+	Seconds    float64  `json:"seconds"`
+	Error      string   `json:"error,omitempty"`
+}
+
+func runBounded(repo string, bc BoundedCheck, tier string, outDir string) boundedResult {
+	res := boundedResult{Name: bc.Name, What: bc.What}
+	t0 := time.Now()
+	ov := map[string]interface{}{"Replace": map[string]string{filepath.Join(repo, bc.PkgDir, "zz_verif_bounded_test.go"): bc.TestFile}}
+	ovb, _ := json.Marshal(ov)
+	ovFile := filepath.Join(outDir, "bounded."+bc.Name+".overlay.json")
+	os.WriteFile(ovFile, ovb, 0o644)
+	tags := "verif badger"
+	if bc.Tags != "" {
+		tags = bc.Tags
+	}
+	cmd := exec.Command("go", "test", "-overlay", ovFile, "-vet=off", "-count=1", "-timeout", "900s", "-tags", tags, "-run", "^"+bc.Run+"$", "-v", ".")
+	cmd.Dir = filepath.Join(repo, bc.PkgDir)
+	cmd.Env = append(os.Environ(), "GOFLAGS=-mod=mod", "GOPROXY=off", "GOSUMDB=off", "GOTOOLCHAIN=local")
+	env := bc.Env
+	if tier == "thorough" && bc.Thorough != nil {
+		env = bc.Thorough
+	}
+	for k, v := range env {
+		cmd.Env = append(cmd.Env, k+"="+v)
+	}
+	if s := os.Getenv("VERIF_SEED"); s != "" {
+		cmd.Env = append(cmd.Env, "VERIF_SEED="+s)
+	}
+	out, err := cmd.CombinedOutput()
+	res.Seconds = round3(time.Since(t0).Seconds())
+	sawSummary := false
+	for _, line := range strings.Split(string(out), "\n") {
+		line = strings.TrimSpace(line)
+		switch {
+		case strings.HasPrefix(line, "BOUNDED-MISMATCH "):
+			res.Mismatches = append(res.Mismatches, strings.TrimPrefix(line, "BOUNDED-MISMATCH "))
+		case strings.HasPrefix(line, "BOUNDED-CASES "):
+			fmt.Sscanf(line, "BOUNDED-CASES %d", &res.Cases)
+			res.Summary = line
+			sawSummary = true
+		}
+	}
+	if !sawSummary {
+		res.Error = "bounded harness did not complete: " + truncate(string(out), 1500)
+		if err != nil {
+			res.Error += " (" + err.Error() + ")"
+		}
+	}
+	return res
 }
 
 type Registry struct {
@@ -148,6 +219,11 @@ func cmdCheck(args []string) int {
 	os.RemoveAll(outDir)
 	os.MkdirAll(outDir, 0o755)
 	dischargeAll(vcs, outDir, timeout, 16)
+
+	var bounded []boundedResult
+	for _, bc := range cfg.Bounded {
+		bounded = append(bounded, runBounded(*repo, bc, *tier, outDir))
+	}
 
 	// registry and known findings
 	var reg Registry
@@ -282,6 +358,40 @@ func cmdCheck(args []string) int {
 		fmt.Printf("  obligation %s (discharged on the unchanged tree) is no longer generated\n", n)
 		exit = 1
 	}
+	// bounded stand-ins: every mismatch is a violation on the real code (the harness ran it)
+	boundedCases := 0
+	for _, br := range bounded {
+		boundedCases += br.Cases
+		if br.Error != "" {
+			violations++
+			path := filepath.Join(replayDir, "bounded."+br.Name+".json")
+			b, _ := json.MarshalIndent(br, "", " ")
+			os.WriteFile(path, b, 0o644)
+			fmt.Printf("VIOLATION property=%s replay=%s no-failing-input-found\n", prop, path)
+			fmt.Printf("  bounded check %s did not complete: %s\n", br.Name, truncate(br.Error, 300))
+			exit = 1
+			continue
+		}
+		var fresh []string
+		for _, mm := range br.Mismatches {
+			id := strings.Fields(mm)[0]
+			if kf := isKnown("bounded:" + br.Name + ":" + id); kf != nil {
+				knownLines = append(knownLines, fmt.Sprintf("KNOWN-FINDING: property=%s %s [bounded:%s:%s]", prop, kf.What, br.Name, id))
+				continue
+			}
+			fresh = append(fresh, mm)
+		}
+		if len(fresh) > 0 {
+			violations++
+			path := filepath.Join(replayDir, "bounded."+br.Name+".json")
+			b, _ := json.MarshalIndent(map[string]interface{}{"property": prop, "bounded_check": br.Name, "what": br.What, "failing_inputs": fresh,
+				"replay_cmd": fmt.Sprintf("cd %s && go test -overlay <overlay mapping zz_verif_bounded_test.go to %s> -vet=off -tags 'verif badger' -run '^%s$' -v .", filepath.Join(*repo, cfg.Bounded[0].PkgDir), cfg.Bounded[0].TestFile, cfg.Bounded[0].Run)}, "", " ")
+			os.WriteFile(path, b, 0o644)
+			fmt.Printf("VIOLATION property=%s replay=%s\n", prop, path)
+			fmt.Printf("  bounded check %s: %d failing inputs on the real code, first: %s\n", br.Name, len(fresh), fresh[0])
+			exit = 1
+		}
+	}
 	for _, l := range knownLines {
 		fmt.Println(l)
 	}
@@ -363,6 +473,8 @@ func cmdCheck(args []string) int {
 			"known_findings_printed":   knownLines,
 			"integer_mode":             "bit-vector (machine arithmetic, wrap-around)",
 			"vacuity_covers_inconclusive": coverIncon,
+			"bounded_stand_ins":           bounded,
+			"bounded_note":                "bounded stand-ins execute the real code exhaustively up to the stated bound; they are NOT counted in obligations/discharged",
 		},
 		"assumptions": assumptions,
 		"wall_s":      round3(time.Since(t0).Seconds()),
